@@ -103,7 +103,7 @@ func alphabet(full bool) []frame {
 	}
 	// frames addressed to other services
 	for _, t := range types {
-		for _, tgt := range [][3]uint32{{1, 1, 100}, {1, 1, 2}, {2, 1, 100}, {1, 1, 6}} {
+		for _, tgt := range [][3]uint32{{1, 1, 100}, {1, 1, 2}, {2, 1, 100}, {1, 1, 6}, {1, 1, 8}, {1, 1, 0}, {1, 0, 8}, {1, 1, 3}} {
 			pays := []int{pArg, pGood, pForgedU}
 			if !full {
 				pays = []int{pArg}
@@ -255,7 +255,7 @@ func init() {
 	reg.Register(&reg.Scenario{Property: "C06", Name: "sequences-2", Body: sequences(2, false, false), Quick: 0, Thorough: 1,
 		Doc: "3 authenticators x all sequences of <=2 frames (reduced alphabet) from an unauthenticated peer, each step to quiescence; then a second unauthenticated connection", MustFlag: []string{"model-authenticated", "service-reached", "third-connection-authenticated"}})
 	reg.Register(&reg.Scenario{Property: "C06", Name: "single-full", Body: sequences(1, true, false), Quick: 1, Thorough: 2,
-		Doc: "3 authenticators x every single frame of the full alphabet (8 types x 7 targets x payload kinds)"})
+		Doc: "3 authenticators x every single frame of the full alphabet (8 types x 11 targets (incl. the authenticate action id 8 on other services) x payload kinds)"})
 	reg.Register(&reg.Scenario{Property: "C06", Name: "pipelined-2", Body: sequences(2, false, true), Quick: 0, Thorough: 1,
 		Doc: "as sequences-2 but both frames sent back to back (authenticate then call without waiting)", MustFlag: []string{"model-authenticated"}})
 	reg.Register(&reg.Scenario{Property: "C06", Name: "sequences-3", Body: sequences(3, false, false), Quick: -1, Thorough: 0,
